@@ -5,6 +5,9 @@ use crate::{
 };
 use arrayvec::ArrayVec;
 use nohash_hasher::BuildNoHashHasher;
+#[cfg(daniel729_chess_verif)]
+use crate::verif_shim::autoplay_prelude::*;
+#[cfg(not(daniel729_chess_verif))]
 use std::{
     collections::HashMap,
     sync::{
